@@ -80,31 +80,24 @@ size_t OGI;      /* ghost slot of m_nodes_adjacency */
         m_pass_stack_n = m_pass_stack_n + 1;                               \
     })
 
-/* ------------------------------------------------------------------ update_routes_sinks_carve: ghost tables (harness-owned, read-only).
- * One table NG of NGN >= gsize + 2 records (a single object keeps DFCC cheap), used in two ways:
- *   indexed by grid node x:
- *     basin  graph_impl.basins()(x): the basin label of x (a real table of the flow graph; the function never reads it, the spec does)
- *     rank   number of receiver steps (receivers as they are when update_routes_sinks_carve is entered) from x to the pit (outlet)
- *            of its basin; 0 at the pit
- *     pos    for a node on the old receiver chain of the tree edge flowing into its basin: its position on that chain
- *   indexed by chain position:
- *     ch     the old receiver chains of all tree edges with a pass, stored one after the other: the chain of edge e is
- *            ch[off .. off + k] = inflow pass node, its receiver, ..., the pit  (k = rank of the inflow pass node)
- * and one table CE of m_edges_n records {off, k} giving the chain segment of each edge.
- * Their defining relations (CV_CWF in spec/orient.py) are instantiated where they are read (DESIGN 3.2). */
-struct cv_node
+/* ------------------------------------------------------------------ orient_edges, depth-first parse: the rooted-forest ghost.
+ * The tree edges form a forest (producer compute_tree_*: an edge enters the tree iff its end points are in different union-find
+ * classes, so no cycle is ever closed -- composition not mechanised).  A forest rooted at m_root (any node of a tree can be taken as its
+ * root) is given by harness-owned read-only tables:
+ *   TG[b].par    parent basin of b            TG[b].pedge  index of the tree edge joining b and its parent (SIZE_MAX: b is a root)
+ *   TG[b].dep    depth of b (parent's + 1)    TG[b].wsp    slot of m_nodes_adjacency, in the row of the parent, that holds pedge
+ *   ECH[e]       the child end point of tree edge e (SIZE_MAX: e is not in the tree)
+ * and three ghost scalars about the ghost basin OGB: OGV_P / OGV_B = "the parent of OGB / OGB itself has been popped", OGS_B = the stack
+ * slot at which OGB was pushed last. */
+struct or_tnode
 {
-    size_t basin;
-    size_t rank;
-    size_t pos;
-    size_t ch;
+    size_t par;
+    size_t dep;
+    size_t pedge;
+    size_t wsp;
 };
-struct cv_chain
-{
-    size_t off;
-    size_t k;
-};
-size_t NGN; /* length of the ghost table NG */
+_Bool OGV_P, OGV_B;
+size_t OGS_B;
 
 #if defined(OR_CONCRETE_VEC)
 /* bounded groups (complete unwinding on tiny buffers): executable bodies instead of contracts.
